@@ -98,9 +98,10 @@ def make_case(rnd, m, nm, em, thorough, hostile=None):
         td = rnd.choice([t for t in (1, 2, 3) if t < N] or [1])
     if rnd.random() < 0.02:
         td = rnd.choice([0, N, N + 3])  # invalid on purpose
-    if m == "hlle" and 8 < td <= max(k, 8):
+    if m == "hlle" and 8 < td < N:
         # the Hessian estimator has td(td+1)/2 columns per neighbourhood: O(N k td^4) work, hours for td ~ 100 (the watchdog
-        # would then report a slow but terminating call as a hang); the larger td values that remain are rejected by td > k
+        # would then report a slow but terminating call as a hang). td > k is no protection: on data whose k-NN graph is not
+        # connected (coincident samples) the connectivity check doubles k up to N-1 first and td = N-2 then passes validation.
         td = rnd.choice([4, 5, 8])
     c["td"] = td
     c["tdb"] = bucket_td(td, c)
